@@ -89,7 +89,18 @@ def _located(spec):
 def _perturb(rnd, spec):
     """a geometry that does NOT describe the same data locations"""
     s = dict(spec)
-    how = rnd.choice(["shift", "scale", "dims", "location", "dimension"])
+    how = rnd.choice(["shift", "scale", "dims", "location", "dimension", "interior", "interior"])
+    if how == "interior" and (s["cls"] == "esri" or max(s["dims"]) < 3):
+        how = "shift"
+    if how == "interior":
+        # same number of nodes and the same first and last coordinate on every axis, one inner node moved
+        axes = [np.array(a, dtype=float) for a in mg.base_axes(s)]
+        k = rnd.choice([i for i, n in enumerate(s["dims"]) if n >= 3])
+        j = rnd.randrange(1, s["dims"][k] - 1)
+        axes[k][j] += 0.25 * (axes[k][j + 1] - axes[k][j])
+        s.update(cls="rect", explicit_axes=[a.tolist() for a in axes])
+        s.pop("uniform_axes", None)
+        return s, how
     if s["cls"] == "esri":
         how = rnd.choice(["shift", "scale", "dims"])
         if how == "shift":
